@@ -38,9 +38,16 @@ def specInt (n : Int) (o : Obs) : Bool :=
   if inRange16 n then specWord (n % 65536).toNat o
   else o.kind == .invalid && o.err
 
-/-- a named constructor applied to `p`: the value is of the named kind and its permissions are
-`p` masked to 12 bits -/
+/-- the inode(7) type bits of the three kinds a constructor can name -/
+def typeWord : Kind → Nat
+  | .dir => 0o040000 | .regular => 0o100000 | .symlink => 0o120000 | _ => 0
+
+/-- a named constructor applied to `p`: the value is of the named kind, its permissions are `p` masked to 12 bits, and its
+mode word (`raw_mode`, `u16::from`, `u32::from`) is exactly the kind's type bits with those permissions — no bit of `p`
+above the twelve permission bits reaches the word (seed C18-8: masking moved from the constructors to `permissions()`
+left `regular(0o20644).raw_mode() = 0o120644`, a symbolic link's word) -/
 def specCtor (k : Kind) (p : Nat) (o : Obs) : Bool :=
   o.kind == k && o.perm == (p &&& 0o7777) && decide (o.perm < 4096)
+  && o.raw == (typeWord k ||| (p &&& 0o7777)) && o.back16 == o.raw && o.back32 == o.raw
 
 end RpmVerif.FileMode.Spec
